@@ -13,3 +13,5 @@
 #define ROUND_OK (g_rk == KASE1 ? SOLVES('L','N','U','U','N','N') : SOLVES('U','T','N','L','T','U'))
 /* the value the routine documents: RCOND = (1/norm(inv(A)))/norm(A), rounded to the working precision */
 #define RC_E ((@R@)((1. / g_est) / anorm))
+/* EST_OK (variant parameter) is written over a value V: in clauses V is the last estimate */
+#define V g_est
